@@ -180,8 +180,8 @@ func runPmap(t *tr.Trace, r *tr.Rand, n int) {
 		rnext := start
 		pid := uint16(r.Intn(32768))
 		nops := r.Range(30, 1500)
-		period := r.Range(2, 5)   // temporal pattern: packets whose frame index % period != 0 are above the layer
-		dropOn := r.Chance(3, 4)  // layer selection active
+		period := r.Range(2, 5)  // temporal pattern: packets whose frame index % period != 0 are above the layer
+		dropOn := r.Chance(3, 4) // layer selection active
 		frame := 0
 		var sent []int64 // recently forwarded source numbers
 		for i := 0; i < nops; i++ {
